@@ -3,6 +3,7 @@ import Spine.Period
 import Spine.HBMulti
 import Spine.HBPace
 import Spine.HBStamp
+import Spine.HBStampSrc
 open Spine.HB
 /-! Line protocol for the heartbeat start/stop model (C16). One op per line, one answer per line.
     Both members live in one model: the code as written is driven with the split events
@@ -20,7 +21,9 @@ open Spine.HB
     answer: `run=<0|1> goroutines=<n> stored=<n> since=<stored - mark> last=<counter|0> prompt=<0|1>` (prompt = every
     tick so far came when nothing was pending)
           gap <ticker|perIteration> <timeout ms> <refresh ms> <k>  -> begin of refresh k+1 minus begin of refresh k (Spine.HBP)
-          stamp <now ms> <zone s>  -> the instant the timestamp text of a refresh made at `now` denotes (Spine.HBS, UTC reading) -/
+          stamp <now ms> <zone s>  -> the instant the timestamp text of a refresh made at `now` denotes (Spine.HBS, UTC reading)
+          stale <clock|tick> <timeout ms> <hold ms>  -> refresh 1 is held up for `hold`, the others take no time: begin of
+                                  refresh 2 minus the reading formatted into it (Spine.HBS.reading over Spine.HBP) -/
 
 /-- a stopped stream has exited by the time the next observation is made -/
 def settle (s : St) : St := s.closed.foldl (fun s c => step s (.exit c)) s
@@ -91,6 +94,16 @@ partial def loop (h out : IO.FS.Stream) (s : St) (mo : Spine.HBM.St × Bool := (
       out.putStrLn (toString (Spine.HBP.begins p d (fun _ => r) (k + 1) - Spine.HBP.begins p d (fun _ => r) k))
       out.flush; loop h out s mo
     | _, _, _, _ => out.putStrLn "bad-op"; out.flush; loop h out s mo
+  | ["stale", src, t, hold] =>
+    let sc : Option Spine.HBS.Src := match src with
+      | "clock" => some .clock | "tick" => some .tick | _ => none
+    match sc, t.toNat?, hold.toNat? with
+    | some sc, some t, some hold =>
+      let d := period t
+      let r : Nat → Nat := fun k => if k = 1 then hold else 0
+      out.putStrLn (toString (Spine.HBP.begins .ticker d r 2 - Spine.HBS.reading sc d r 2))
+      out.flush; loop h out s mo
+    | _, _, _ => out.putStrLn "bad-op"; out.flush; loop h out s mo
   | ["stamp", now, zone] =>
     match now.toInt?, zone.toInt? with
     | some now, some zone => out.putStrLn (toString (Spine.HBS.denoted {} now zone)); out.flush; loop h out s mo
